@@ -535,7 +535,7 @@ def run_oracle(orc, repo):
         env['VERIF_SEED'] = os.environ.get('VERIF_SEED', '0')
         for k, v in orc.get('env', {}).items():
             env[k] = v
-        p = subprocess.run(['cargo', 'test', '--offline', '-p', orc.get('package', 'sudachi'), '--lib', 'verif_oracle', '--', '--nocapture'],
+        p = subprocess.run(['cargo', 'test', '--offline', '-p', orc.get('package', 'sudachi')] + orc.get('cargo_target', ['--lib']) + ['verif_oracle', '--', '--nocapture'],
                            cwd=scratch, env=env, capture_output=True, text=True, timeout=1200)
         out = p.stdout + p.stderr
         failed = 'test result: FAILED' in out or re.search(r'\d+ failed', out) is not None and 'test result: ok' not in out
